@@ -301,7 +301,7 @@ static std::vector<int> shifts_for(vh::Rng& r, int n, bool every, int nsample) {
     const int q = n / 4;
     if (every) { for (int d = -q; d <= q; ++d) ds.push_back(d); return ds; }
     std::set<int> s = {0, 1, -1, 2, -2, q, -q, q - 1, -(q - 1)};
-    while ((int)s.size() < nsample + 9) s.insert(r.range(-q, q));
+    while ((int)s.size() < std::min(nsample + 9, 2 * q + 1)) s.insert(r.range(-q, q));   // never more distinct shifts than exist
     return std::vector<int>(s.begin(), s.end());
 }
 
@@ -802,7 +802,8 @@ static void run_detector_all(vh::Rng& r) {
         if (every) for (int q = 0; q < F; ++q) residues.push_back(q);
         else {
             std::set<int> s = {0, 1, nh - 3, nh - 2, nh - 1, nh, F - 2, F - 1, F / 2};
-            while ((int)s.size() < 9 + (THOROUGH ? 40 : 12)) s.insert(r.range(0, F - 1));
+            // (a short preamble has fewer than 9 + 40 frame offsets: never ask for more distinct residues than exist)
+            while ((int)s.size() < std::min(9 + (THOROUGH ? 40 : 12), F)) s.insert(r.range(0, F - 1));
             residues.assign(s.begin(), s.end());
         }
         out.stat(every ? "det_lengths_every_offset" : "det_lengths_sampled_offset");
